@@ -280,7 +280,7 @@ def make_multi_input(tool, files, args, primary, mut, seed="multi", cxx=True, ig
 
 
 INC_MAIN = b"#include \"inc.h\"\nint after_include;\n"
-N_MAIN = mutgen.SNIPPETS["published"] + mutgen.SNIPPETS["templates"] + mutgen.SNIPPETS["structs_unions"]
+N_MAIN = mutgen.N_MAIN_TEXT      # must parse cleanly, or the .N file is never read (checked by carrier_selfcheck)
 
 
 def _write(p, data):
@@ -331,8 +331,8 @@ def command_for(b, inp, d):
     return argv, outs
 
 
-CPU_LIMIT_SMALL, CPU_LIMIT_BIG = 10, 10     # seconds of CPU time; the confirming run gets twice that (normal: 0.03 s)
-HANG_SAMPLE_AT = (0.25, 0.4, 0.55, 0.7, 0.85, 1.0, 1.15, 1.3, 1.45, 1.6, 1.8, 2.0)   # CPU seconds at which a confirmed hang is sampled (re-runs) for its signature
+CPU_LIMIT_SMALL, CPU_LIMIT_BIG = 6, 6       # seconds of CPU time; the confirming run gets twice that (normal: 0.03 s)
+HANG_SAMPLE_AT = (0.25, 0.4, 0.55, 0.7, 0.85, 1.0, 1.15, 1.3)   # CPU seconds at which a confirmed hang is sampled (re-runs) for its signature
 WALL_BACKUP = 25                            # x cpu limit: wall-clock backstop (blocked child / overloaded host)
 
 
@@ -645,6 +645,20 @@ def enum_inputs(tier):
     for i, (lab, files, args, prim) in enumerate(mutgen.multi_enumeration()):
         for tool in (("ig", "pf", "pfE") if tier == "thorough" else ("ig", "pf")):
             out.append(make_multi_input(tool, files, args, prim, "enum_multi", lab, ig=i % len(IG_OPTS)))
+    # cyclic / self-referential declarations: using-directive cycles, classes deriving from themselves through
+    # typedefs / forward declarations / templates, self-typed members, alias and initialiser cycles
+    for i, (lab, data) in enumerate(mutgen.self_ref_files()):
+        for t, ig in ((("pf", 0), ("ig", 1), ("ig", 3), ("ig", 2), ("pfE", 0)) if tier == "thorough" else
+                      (("pf", 0), ("ig", 1))):
+            out.append(make_input(t, data, "enum_selfref", lab, ig=ig, cxx=True))
+    # end of file inside every bracket kind: every token-prefix of bracket-heavy declarations
+    for i, (lab, data, fam) in enumerate(mutgen.bracket_prefix_files()):
+        tg = ("pf", "pfE", "ig") if tier == "thorough" else (("pf",) if i % 8 else ("pf", "ig"))
+        for t in tg:
+            out.append(make_input(t, data + (b"" if i % 2 else b"\n"), "enum_prefix", lab, ig=1, cxx=True))
+    # .N command files: every command x every hostile operand, one line per file
+    for i, (lab, data) in enumerate(mutgen.nfile_enumeration()):
+        out.append(make_input("nfile", data, "enum_ncmd", lab, ig=(i % len(IG_OPTS)) if tier == "thorough" else (i % 2)))
     for i, nf in enumerate(mutgen.NFILES):
         out.append(make_input("nfile", nf, "enum_nfile", "nfile%d" % i, ig=i % len(IG_OPTS)))
     for i, ds in enumerate(mutgen.DEFINES):
@@ -758,7 +772,8 @@ def fuzz_exe():
 
 def write_fuzz_dict(path):
     words = set()
-    for w in mutgen.TOKEN_DICT + mutgen.LINE_DICT:
+    for w in mutgen.TOKEN_DICT + mutgen.LINE_DICT + mutgen.NFILE_OPERANDS + mutgen.SELF_REF_LOOKUPS + \
+            [b"using namespace ", b"typedef ", b"template<class... T> struct ", b"struct X : X", b"namespace A { using namespace B; }"]:
         if 0 < len(w) <= 40:
             words.add(w)
     with open(path, "w") as f:
@@ -787,7 +802,25 @@ def run_fuzz_case(ctx, case):
         return all(exec_input(b, make_input(t, data, "fuzzseed", "fuzz"), d0).cls in
                    ("exit0", "exit0+warn", "error-diag", "error-other") for t in ("pf", "pfE"))
 
+    _write(os.path.join(wdir, "carrier.h"), N_MAIN)
     nseed = 0
+    fam = [x[1] for x in mutgen.self_ref_files()] + [t for _, t in mutgen.BRACKET_SNIPPETS] + \
+          [x[1] for x in mutgen.macro_cycle_files()[::6]] + [x[1] for x in mutgen.pp_sequence_files()[::8]]
+    rngf = random.Random("C15-fuzzfam:%s" % case["sub"])
+    rngf.shuffle(fam)
+    for i, data in enumerate(fam[:60]):       # a different third of the structural families per job
+        if len(data) <= 4096 and survives(data):
+            _write(os.path.join(cdir, "f%03d" % i), data)
+            nseed += 1
+    ops = list(mutgen.NFILE_OPERANDS)
+    rngf.shuffle(ops)
+    for i in range(0, 60, 3):                 # .N operands as type lines; sized so that size % 3 == 2
+        data = b"\n".join(o for o in ops[i:i + 3] if b"\0" not in o)
+        data += b"\n" * ((2 - len(data)) % 3)
+        probe = b"".join(b"forcetype " + l + b"\n" for l in data.split(b"\n") if l)
+        if exec_input(b, make_input("nfile", probe, "fuzzseed", "fuzz", ig=1), d0).key is None:
+            _write(os.path.join(cdir, "n%03d" % i), data)
+            nseed += 1
     for i, (n, data) in enumerate(mutgen.corpus(b.src)):
         if len(data) <= 4096 and survives(data):
             _write(os.path.join(cdir, "s%03d" % i), data)
@@ -846,8 +879,14 @@ def run_fuzz_case(ctx, case):
         data = open(os.path.join(adir, a), "rb").read()
         kind = a.split("-")[0]
         res.count("fuzz_artifacts")
-        # the harness sends odd-sized inputs through preprocess_file (parse_file -E)
-        inp = make_input("pfE" if len(data) & 1 else "pf", data, "libfuzzer_" + kind, "fuzz", cxx=True)
+        # the harness picks the mode by size: 0 parse_file, 1 preprocess_file, 2 type lines of a .N file
+        mode = len(data) % 3
+        if mode == 2:
+            lines = [l for l in data.split(b"\n") if l and b"\0" not in l]
+            ndata = b"".join(c + b" " + l + b"\n" for l in lines for c in (b"forcetype", b"defconstruct Item"))
+            inp = make_input("nfile", ndata, "libfuzzer_" + kind, "fuzz", cxx=True, ig=1)
+        else:
+            inp = make_input("pfE" if mode == 1 else "pf", data, "libfuzzer_" + kind, "fuzz", cxx=True)
         o = exec_input(b, inp, d2, res)
         res.features.add("%s|libfuzzer_%s|%s" % (inp["t"], kind, o.cls))
         if o.key is None:
@@ -895,12 +934,28 @@ def _prerun(args):
     return _inp_hash(inp), {"key": o.key, "cls": o.cls, "rc": o.r.rc, "err": o.r.err[-3000:]}
 
 
+def carrier_selfcheck(b, work):
+    """the fixed files around a mutated include / .N file / -D list must be accepted by the tools, or the mutated
+    part is never reached (the first .N carrier had a construct the parser rejects: no .N line was ever read)"""
+    d = os.path.join(work, "selfcheck")
+    os.makedirs(d, exist_ok=True)
+    for inp in (make_input("nfile", b"forcetype Item\nrenametype Vec3f LVec3f\n", "selfcheck"),
+                make_input("inc:ig", b"int included;\n", "selfcheck"),
+                make_input("def:ig", b"", "selfcheck", defines=[b"X=1", b"F(a,b)=a", b"V(...)=1", b"G()=2", b"Y=1"])):
+        for ig in range(len(IG_OPTS)):
+            o = exec_input(b, dict(inp, ig=ig), d)
+            if o.key is None and o.r.rc != 0:
+                raise core.HarnessError("carrier file of target %s is rejected by interrogate (%s): %s" %
+                                        (inp["t"], " ".join(IG_OPTS[ig]), o.r.err[-600:]))
+    shutil.rmtree(d, ignore_errors=True)
+
+
 def prepare(chk):
     """builds, and runs the witnesses of the listed findings in parallel: ./check replays them one by one in the
     main process, which would serialise ~30 crashing runs and 6 watchdog periods.  run_case() takes the outcome of
     a finding-witness case from this cache (same binaries, same input, seconds ago); without the cache (a replay
     from a fresh process) it simply runs the input."""
-    core.build("asan")
+    carrier_selfcheck(core.build("asan"), chk.work)
     if not chk.quick():
         fuzz_exe()
     inputs = []
@@ -927,7 +982,7 @@ def main(chk):
         "the ASan+UBSan (-O1, asserts on) build dies on the same inputs as a user's build, or on more (asserts are on "
         "in the repository's default configuration)",
         "recoverable (arithmetic) UBSan reports are counted, not judged; memory growth is not judged",
-        "a child that burns 10 s of CPU time, and 20 s again in a confirming run, does not terminate in bounded time "
+        "a child that burns 6 s of CPU time, and 12 s again in a confirming run, does not terminate in bounded time "
         "(normal runs use 0.03 s); CPU time, not wall time, so that load on the host cannot create hangs; "
         "RLIMIT_NOFILE=1024 as in a login shell",
         "UBSan's vptr report for std::cerr after the tool ran out of file descriptors is the sanitizer's artefact "
@@ -949,6 +1004,8 @@ def main(chk):
     chk.extra["random_inputs"] = nrand
     # big cases first would starve nothing: order is irrelevant for verdicts; shuffle for load balance
     chk.rng.shuffle(cases)
+    # batches that hold the (listed) endless template instantiations cost three watchdog periods: start them first
+    cases.sort(key=lambda c: 0 if any(i["m"] == "enum_selfref" for i in c.get("inputs", [])) else 1)
     if not chk.quick():
         fz = [{"id": "fz%d" % k, "fuzz": True, "sub": chk.rng.getrandbits(31), "runs": 30000} for k in range(16)]
         cases = fz + cases
